@@ -359,7 +359,11 @@ func applyC13(t *rapid.T, base World, kind string) (World, bool) {
 		if l.Manip == nil {
 			l.Manip = &core.Manip{}
 		}
-		switch rapid.IntRange(0, 3).Draw(t, "mk") {
+		switch rapid.IntRange(0, 5).Draw(t, "mk") {
+		case 4:
+			l.Manip.TbsSig = "1.2.4." + fmt.Sprint(rapid.IntRange(1, 999).Draw(t, "mts"))
+		case 5:
+			l.Manip.TbsPubAlg = "1.2.5." + fmt.Sprint(rapid.IntRange(1, 999).Draw(t, "mpa"))
 		case 0:
 			v := int64(5)
 			if l.Manip.Version != nil {
